@@ -15,6 +15,10 @@ NA = {
 PENDING = "static check designed in DESIGN.md section 3 but not built yet; not claimed until it exists"
 
 CHECKS = {
+ "C09": dict(level="other", technique="IR global-initialiser comparison against a pinned table, whole-library writer scan, must-pass-through on the run function's CFG, load-provenance in the scan loops' object code",
+   text="PARTIAL. Decided: (1) the 256 64-bit initialisers of rolling_hash2_table1 equal the pinned definition, nothing in the library writes the table, and init fills state->table1 from it alone - the 'fixed function defined by the library's constant table, across versions' clause; (2) every path of _rolling_hash2_run to its return passes a store to *offset, a store to state->hash and a copy into state->history, so a following run resumes from exactly the window state - the structural half of 'independent of call splitting'; (3) the three scan-loop implementations read table entries only through their t1/t2 arguments. NOT decided: that the reported offset is the first match and that the SSE/AVX2 scan loops compute the same function as the C loop.",
+   note="Necessary structural conditions; the value clauses are declared undecided. The pinned table was taken from this tree (digits of pi).",
+   ref="3/C09"),
  "C15": dict(level="other", technique="IR def-use / taint analysis with an unsigned upper-bound domain for lossless-truncation, DWARF member types",
    text="PARTIAL. Decided for all 28 built *_ctx_*.c units: total_length is a 64-bit member; every update is `total_length + zext(len)` as a 64-bit add or the constant 0; along every def-use chain from a load of total_length (through local callees such as hash_pad) no truncation below 64 bits occurs unless an upper-bound analysis shows it lossless (block-offset masks); the byte-to-bit conversion is a 64-bit operation that reaches an 8-byte store into the padding; SHA-512 zeroes the upper 8 length bytes. These are exactly the two shipped defects of this family (32-bit <<3, 32-bit total). NOT decided: the digest (C01) and the block-count packing in the assembly managers' lane words.",
    note="Structural necessary condition of the property, not the digest equality. Trusted: clang IR makes every C integer conversion explicit; DWARF.",
